@@ -29,6 +29,125 @@ def _run(cmd, cwd, env, log, timeout):
 
 
 def replay(pid, h, r):
+    if h.get("slots"):
+        res = native_search(pid, h, r)
+        if res["reproduced"] or not h.get("kani_playback_fallback"):
+            return res
+    return kani_playback(pid, h, r)
+
+
+def _le(v, n):
+    return list((v % (1 << (8 * n))).to_bytes(n, "little"))
+
+
+def native_search(pid, h, r):
+    """For harnesses whose Kani concrete playback is unaffordable (measured: > 1 h and 15 GB for the
+    ranged-parser harnesses): run the SAME harness function natively (kani::concrete_playback_run feeds
+    kani::any()) over the product of small per-input candidate sets declared in the registry
+    (boundary values around the harness' constants).  The first candidate on which the real code
+    makes a harness assertion fail is the witness.  Candidates violating a kani::assume are skipped."""
+    import itertools
+    crate, short = h["crate"], r["short"]
+    work = os.path.join(kani.SCRATCH, "replay", short + "-native")
+    shutil.rmtree(work, ignore_errors=True)
+    os.makedirs(work)
+    out_dir = os.path.join(os.environ.get("VERIF_REPLAY_DIR", os.path.join(VERIF, "replays")), pid)
+    os.makedirs(out_dir, exist_ok=True)
+    out_path = os.path.join(out_dir, short + ".rs")
+    log = os.path.join(work, "replay.log")
+    env = kani.base_env()
+    env.update(kani.CRATES[crate]["env"])
+    res = {"reproduced": False, "path": out_path, "note": ""}
+    t0 = time.time()
+    try:
+        if crate == "lex":
+            src = os.path.join(work, "crate")
+            shutil.copytree(kani.CRATES[crate]["cwd"], src)
+            cwd = src
+            harness_files = [os.path.join(src, "src", f) for f in os.listdir(os.path.join(src, "src"))]
+        else:
+            hdir = os.path.join(work, "harness")
+            shutil.copytree(kani.CRATES[crate]["env"]["CLAP_VERIF_DIR"], hdir)
+            env["CLAP_VERIF_DIR"] = hdir
+            cwd = kani.CRATES[crate]["cwd"]
+            harness_files = [os.path.join(hdir, f) for f in os.listdir(hdir)]
+        combos = list(itertools.islice(itertools.product(*[c for _, c in h["slots"]]), 20000))
+        rows = []
+        for combo in combos:
+            rows.append("vec![" + ", ".join("vec!%s" % _le(v, n) for (n, _), v in zip(h["slots"], combo)) + "]")
+        test_name = "verif_native_search_" + short
+        test_src = """
+#[test]
+fn %s() {
+    let cands: Vec<Vec<Vec<u8>>> = vec![
+        %s
+    ];
+    std::panic::set_hook(Box::new(|_| {}));
+    let mut found = None;
+    let mut tried = 0usize;
+    for c in cands.iter() {
+        let r = std::panic::catch_unwind(std::panic::AssertUnwindSafe(|| kani::concrete_playback_run(c.clone(), %s)));
+        if let Err(e) = r {
+            let msg = e.downcast_ref::<String>().cloned().or_else(|| e.downcast_ref::<&str>().map(|s| s.to_string())).unwrap_or_default();
+            if msg.contains("kani::assume") {
+                continue;
+            }
+            tried += 1;
+            found = Some((c.clone(), msg));
+            break;
+        }
+        tried += 1;
+    }
+    let _ = std::panic::take_hook();
+    match found {
+        Some((c, msg)) => {
+            println!("VERIF-WITNESS inputs={:?} panic={}", c, msg.replace('\\n', " "));
+            panic!("witness found");
+        }
+        None => println!("VERIF-NO-WITNESS after {} admissible candidates", tried),
+    }
+}
+""" % (test_name, ",\n        ".join(rows), short)
+        mod_file = _module_file(crate, h["name"], harness_files)
+        with open(mod_file, "a") as f:
+            f.write("\n// ---- appended by the replay step (native witness search) ----\n" + test_src)
+        modes = {}
+        witness = None
+        for mode, extra_env in (("dev", {}), ("release-like", {"CARGO_PROFILE_TEST_OPT_LEVEL": "3", "CARGO_PROFILE_TEST_DEBUG_ASSERTIONS": "false",
+                                                                "CARGO_PROFILE_TEST_OVERFLOW_CHECKS": "false"})):
+            env3 = dict(env)
+            env3.update(extra_env)
+            env3["CARGO_TARGET_DIR"] = os.path.join(work, "target-native-" + mode)
+            cmd = ["cargo", "kani", "playback", "-Z", "concrete-playback"] + kani.CRATES[crate]["args"] + ["--", test_name, "--nocapture"]
+            mark = os.path.getsize(log) if os.path.exists(log) else 0
+            _run(cmd, cwd, env3, log, 1800)
+            with open(log, errors="replace") as lf:
+                lf.seek(mark)
+                tail = lf.read()
+            m = re.search(r"VERIF-WITNESS (.*)", tail)
+            if m:
+                modes[mode] = "witness: " + m.group(1)[:400]
+                witness = witness or m.group(1)
+            elif "VERIF-NO-WITNESS" in tail:
+                modes[mode] = re.search(r"VERIF-NO-WITNESS.*", tail).group(0)
+            else:
+                modes[mode] = "native search did not run"
+        res["modes"] = modes
+        res["reproduced"] = witness is not None
+        if not witness:
+            res["note"] = f"no native witness among {len(combos)} boundary candidates: {modes}"
+        hdr = ("// Native witness search for harness %s (Kani concrete playback is unaffordable for it).\n"
+               "// The harness function itself is run natively over %d boundary candidates; kani::any() is fed by kani::concrete_playback_run.\n"
+               "// result: %s\n" % (h["name"], len(combos), modes))
+        _save(out_path, h, r, hdr + (test_src if len(test_src) < 20000 else test_src[:20000] + "\n// ... (candidate table truncated)\n"), res)
+        _save_log_tail(log, out_path + ".log")
+    finally:
+        res["wall_s"] = round(time.time() - t0, 1)
+        shutil.rmtree(work, ignore_errors=True)
+    return res
+
+
+def kani_playback(pid, h, r):
     crate = h["crate"]
     short = r["short"]
     work = os.path.join(kani.SCRATCH, "replay", short)
